@@ -126,3 +126,4 @@ pub proof fn lemma_split_without_sep(s: Seq<char>, c: char)
         assert(split_spec(s, c)[0] =~= s);
     }
 }
+
